@@ -28,8 +28,9 @@ def _form(val, k, puan):
     if k == 2: return puan.Bounds(int(val), int(val))
     if k == 3: return numpy.int64(val)
     if k == 4: return (numpy.int64(val), int(val))
+    nt = numpy.int8 if -128 <= val <= 127 else numpy.int16 if -32768 <= val <= 32767 else numpy.int32       # the narrowest type that holds it
     if k == 5: return (numpy.int32(val), numpy.int32(val))
-    return numpy.int32(val)
+    return nt(val)
 
 def _valid(m):
     return (not proj.is_var(m)) and m.errors() == []
@@ -134,8 +135,20 @@ def _evals(m, box, tok, puan, k0=0):
     return pts
 
 # ----------------------------------------------------------------------------- C01 / C02
+def _prelude(case):
+    """other models of the same process: built, validated and encoded before the model of the case (a rule set that was edited and
+    rebuilt; what the case's model answers afterwards must not depend on them)"""
+    for r in case.get("prelude", ()):
+        try:
+            pm = B.build(r)
+            if _valid(pm):
+                pm.to_ge_polyhedron(active=True); pm.to_ge_polyhedron(active=False)
+        except Exception:
+            pass
+
 def drv_to_poly(case):
     puan, pg = _mods()
+    _prelude(case)
     m = _mk(case)
     if not _valid(m): return []
     tok = proj.Tok()
@@ -156,6 +169,7 @@ def drv_to_poly(case):
 
 def drv_to_poly2(case):
     puan, pg = _mods()
+    _prelude(case)
     m = _mk(case)
     if not _valid(m): return []
     tok = proj.Tok()
@@ -228,7 +242,7 @@ def drv_partial(case):
                 interp[v.id] = o if (k + j) % 2 else puan.Bounds(*o)
             else:
                 interp[v.id] = _form(o, k + j, puan)
-        if k % 2:
+        if k % 4:                                           # (runs of consecutive calls with the same object)
             shared.clear(); shared.update(interp)           # one dictionary object, updated in place between the calls
             res = m.evaluate_propositions(shared)
             top = m.evaluate(shared)
@@ -506,6 +520,24 @@ def drv_b64(case):
         if Q1.default_prio_vector is not None and len(Q1.default_prio_vector): Q1.default_prio_vector[0] = 7
         Q2 = pnd.ge_polyhedron_config.from_b64(sp)
         out.append({"op": "b64poly", "p_before": pP, "p_after": pQ1, "p_again": proj.cfgpoly(Q2, tok), "sel_before": sP, "sel_after": sQ})
+        # ... and the edited object packs to what it is now, not to what it was unpacked from
+        pE = proj.cfgpoly(Q1, tok)
+        s3 = Q1.to_b64()
+        out.append({"op": "b64poly", "p_before": pE, "p_after": proj.cfgpoly(pnd.ge_polyhedron_config.from_b64(s3), tok),
+                    "p_again": proj.cfgpoly(pnd.ge_polyhedron_config.from_b64(Q1.to_b64()), tok), "sel_before": [], "sel_after": [], "edited": True})
+        # the same polyhedron stored with another integer dtype keeps that dtype
+        import numpy
+        M = numpy.asarray(P)
+        dts = [numpy.int32, numpy.int16, numpy.int8]
+        for dt in dts[len(pP["cols"]) % 3:] + dts[:len(pP["cols"]) % 3]:
+            if M.size and (M.min() < numpy.iinfo(dt).min or M.max() > numpy.iinfo(dt).max): continue
+            Pd = pnd.ge_polyhedron_config(M.astype(dt), default_prio_vector=numpy.array(P.default_prio_vector), variables=list(P.variables),
+                                          index=list(P.index), dtype=dt)
+            sd = Pd.to_b64()
+            Qd = pnd.ge_polyhedron_config.from_b64(sd)
+            out.append({"op": "b64poly", "p_before": proj.cfgpoly(Pd, tok), "p_after": proj.cfgpoly(Qd, tok),
+                        "p_again": proj.cfgpoly(pnd.ge_polyhedron_config.from_b64(sd), tok), "sel_before": [], "sel_after": [], "dtype": str(numpy.dtype(dt))})
+            break
     return out
 
 # ============================================================================= polyhedra (C11, C12, C19, C20)
@@ -1012,6 +1044,14 @@ def drv_x_model(case):
         else:
             e["atomic"] = [tok(p.id) for p in x.atomic_propositions]; e["compound"] = [tok(p.id) for p in x.compound_propositions]
         out.append(e)
+    if len(m.flatten()) <= 12 and not any(" " in str(x.id) or "\n" in str(x.id) for x in m.flatten()):
+        import ast
+        raw = m.to_text().split("\n")
+        lines = []
+        for ln in raw:
+            sh = ast.literal_eval(ln)
+            lines.append([tok(sh[0]), proj.I(sh[1]), [tok(i) for i in sh[2]], proj.I(sh[3]), [proj.I(sh[4][0]), proj.I(sh[4][1])]])
+        out.append({"op": "x_to_text", "model": proj.node(m, tok), "lines": lines, "raw": [list(ln.encode("utf-8")) for ln in raw]})
     lv = proj.leaves(m)
     box = _box(lv)
     if box is not None and len(box) <= 128 and len(m.flatten()) <= 12:
@@ -1029,6 +1069,25 @@ def drv_x_poly(case):
     P = _poly(case)
     base = _pp(P, tok)
     out = []
+    from fractions import Fraction
+    import puan.ndarray as pnd
+    nc = len(base["cols"])
+    if base["rows"]:
+        st = [Fraction(float(v)).limit_denominator(10 ** 6) for v in numpy.asarray(P.row_stretch()).tolist()]
+        out.append({"op": "x_row_stretch", "rows": base["rows"], "cols": base["cols"], "stretch": [[f.numerator, f.denominator] for f in st]})
+    if "mask" in case and base["rows"] and nc:
+        mask = case["mask"][:nc] + [0] * (nc - len(case["mask"]))
+        P2 = _poly(case)                  # observation O11: neglect_columns zeroes the neglected columns of its receiver as well
+        R = P2.neglect_columns(numpy.array(mask))
+        res = [{"b": proj.I(r[0]), "a": [proj.I(v) for v in r[1:]]} for r in numpy.asarray(R).tolist()]
+        size = 1
+        for c in base["cols"]: size *= c["hi"] - c["lo"] + 1
+        if size <= 3000:
+            out.append({"op": "x_neglect", "rows": base["rows"], "cols": base["cols"], "mask": mask, "res": res, "recv_after": _pp(P2, tok)["rows"]})
+        pats = [p[:nc] for p in case["patterns"]]
+        if pats and len(pats[0]):
+            ng = pnd.ge_polyhedron(numpy.asarray(P)).neglectable_columns(numpy.array(pats, dtype=numpy.int64))
+            out.append({"op": "x_neglectable", "rows": base["rows"], "cols": base["cols"], "patterns": pats, "res": [proj.I(v) for v in numpy.asarray(ng).tolist()]})
     for i in range(len(base["rows"])):
         n = 1
         for j, c in enumerate(base["cols"]):
